@@ -63,6 +63,7 @@ type LoopSpec struct {
 }
 
 type Clause struct {
+	Props []string // `ensures @C07 @C11 <expr>`: proved only under these properties, never assumed by callers
 	Text string
 	E    SExpr
 	Line int
@@ -213,11 +214,17 @@ func ParseContractFile(path, pkgPath string) (*ContractFile, error) {
 			if cur == nil {
 				return nil, fail(fmt.Errorf("%s outside func", kw))
 			}
+			var cprops []string
+			for strings.HasPrefix(strings.TrimSpace(rest), "@") {
+				w1, r1 := splitWord(strings.TrimSpace(rest))
+				cprops = append(cprops, strings.TrimPrefix(w1, "@"))
+				rest = r1
+			}
 			e, err := ParseSpecExpr(rest)
 			if err != nil {
 				return nil, fail(err)
 			}
-			c := Clause{Text: rest, E: e, Line: rc.line, File: path}
+			c := Clause{Text: rest, E: e, Line: rc.line, File: path, Props: cprops}
 			if kw == "requires" {
 				cur.Requires = append(cur.Requires, c)
 			} else {
